@@ -877,7 +877,9 @@ def _grid_once(c, cores, tag):
     except (Stall, CaseTimeout, RaceHang):
         raise
     except Exception as e:  # noqa
+        import traceback
         out["raised"] = [type(e).__name__, str(e)[:100]]
+        out["traceback"] = traceback.format_exc()[-1500:]
     rows = []
     try:
         with open(gs.paths.output_path / "results.csv") as f:
@@ -962,7 +964,9 @@ def _sens_once(c, cores, tag):
     except (Stall, CaseTimeout, RaceHang):
         raise
     except Exception as e:  # noqa
+        import traceback
         out["raised"] = [type(e).__name__, str(e)[:100]]
+        out["traceback"] = traceback.format_exc()[-1500:]
     rows = []
     try:
         with open(sens.results_path) as f:
